@@ -168,7 +168,10 @@ Definition doc_codes (k : scase) : list (nat * nat) :=
    end) ++
   match s_written k, s_readback k with
   | Ok d, Some r =>
-      (if rres_eqb (m_read c d) r then [] else [(6%nat, 1%nat)]) ++
+      (* a gene in a group: the reader model describes the unpatched reader (fixes/io-sbml-group-gene-member.md);
+         no prediction, the failure itself is reported by the trip monitor as a known finding *)
+      (if existsb (fun g => existsb (fun p => fst p =? 0) (gr_members g)) (sm_groups (s_sm k)) then []
+       else if rres_eqb (m_read c d) r then [] else [(6%nat, 1%nat)]) ++
       (if sbml_ok to_dec wnum15 cur_clean cur_env c (s_sm k) then
          (if rres_eqb (roundtrip to_dec parse_dec wnum15 cur_clean cur_env c (s_sm k))
                       (Ok (norm to_dec cur_env (s_sm k))) then [] else [(7%nat, 1%nat)]) ++
